@@ -249,6 +249,20 @@ func (e *Engine) sigCase(p *sim.Plan, st *sim.Step, res *sim.RunResult, keep boo
 		res.HarnessErr = err.Error()
 		return nil, "skipped"
 	}
+	// the victim learns the author before any key is declared, and later receives the whole key
+	// history in one pull: several versions fast-forwarded at once
+	if st.Id%2 == 0 {
+		if _, err := identity.Push(H.Sim, "hub0"); err != nil {
+			res.HarnessErr = "push identity: " + err.Error()
+			return nil, "skipped"
+		}
+		if _, err := cw.victimPull("hub0"); err != nil {
+			res.HarnessErr = "victim pull identities: " + err.Error()
+			return nil, "skipped"
+		}
+		cw.w.Act(H)
+		res.Probes["victim_knew_author_before_keys"]++
+	}
 	for i, ev := range evs {
 		sim.SetRandStep(uint64(310 + i))
 		H.Wall += 1000
